@@ -169,7 +169,10 @@ KwTarget(P, n, npos) ==
   IF Named(P, n) # {} THEN LET i == CHOOSE i \in Named(P, n) : TRUE IN
                            IF P[i].kind = "PK" /\ i <= npos THEN 0 ELSE i
   ELSE VKi(P)
-Worlds(P, C) == IF HasArg(C, "star") THEN NPlain(C)..(NPos(P) + 1) ELSE {NPlain(C)}
+\* (beyond NPos(P) + 1 positionals all worlds behave alike: everything further lands in *args or fails)
+Worlds(P, C) == IF HasArg(C, "star")
+                THEN NPlain(C)..(IF NPlain(C) > NPos(P) + 1 THEN NPlain(C) ELSE NPos(P) + 1)
+                ELSE {NPlain(C)}
 PrefixBinds(P, C, npos) == /\ (npos <= NPos(P) \/ VPi(P) # 0)
                            /\ \A n \in KwNames(C) : KwTarget(P, n, npos) # 0
 Blocked(P, C, j) == P[j].kind = "PK" /\ P[j].name \in KwNames(C)
